@@ -136,9 +136,9 @@ class Iff(_BinaryNeuron):
             The amount of bounds tightening or new information that is leaned by the inference step.
 
         """
-        self.Imp1.upward(groundings, **kwds)
-        self.Imp2.upward(groundings, **kwds)
-        return super().upward(groundings, **kwds)
+        result = self.Imp1.upward(groundings, **kwds)
+        result = result + self.Imp2.upward(groundings, **kwds)
+        return result + super().upward(groundings, **kwds)
 
     def downward(
         self,
@@ -162,6 +162,6 @@ class Iff(_BinaryNeuron):
 
         """
         result = super().downward(index, groundings, **kwds)
-        self.Imp1.downward(index, groundings, **kwds)
-        self.Imp2.downward(index, groundings, **kwds)
+        result = result + self.Imp1.downward(index, groundings, **kwds)
+        result = result + self.Imp2.downward(index, groundings, **kwds)
         return result
